@@ -696,6 +696,18 @@ def compile_fn(fn, lean_name, funcs, fuel=None):
                 continue
             if isinstance(st, ast.AugAssign):
                 st = ast.Assign(targets=[st.target], value=ast.BinOp(left=st.target, op=st.op, right=st.value))
+            if isinstance(st, ast.Assign) and len(st.targets) == 1 and isinstance(st.targets[0], ast.Tuple) \
+                    and isinstance(st.value, ast.Tuple) and len(st.value.elts) == len(st.targets[0].elts) \
+                    and all(isinstance(t, ast.Name) for t in st.targets[0].elts):
+                # a, b = e1, e2 : all right-hand sides are evaluated first; refused when one of them reads a name assigned here
+                tnames = [t.id for t in st.targets[0].elts]
+                if any(isinstance(x, ast.Name) and x.id in tnames for v in st.value.elts for x in ast.walk(v)) or len(set(tnames)) != len(tnames):
+                    raise Untranslatable(f'tuple assignment that reads its own targets: {ast.unparse(st)[:60]}')
+                vals_ = [te.expr(v) for v in st.value.elts]
+                for tn, (term, ty) in zip(tnames, vals_):
+                    lines.append(f'  let {tn}_ := {term}')
+                    te.env = {**te.env, tn: (f'{tn}_', ty)}
+                continue
             if isinstance(st, ast.Assign):
                 if len(st.targets) != 1 or not isinstance(st.targets[0], ast.Name):
                     raise Untranslatable(f'assignment {ast.unparse(st)[:60]}')
@@ -798,6 +810,8 @@ def names_as_codes(fn, helpers, depth=0):
         return e
 
     def ret(e):
+        if isinstance(e, ast.IfExp):
+            return [ast.If(test=e.test, body=ret(e.body), orelse=ret(e.orelse))]
         if isinstance(e, ast.Constant) and isinstance(e.value, str):
             if e.value not in _CONST_NAMES:
                 raise Untranslatable(f'name {e.value!r} has no structure code')
@@ -841,6 +855,59 @@ def names_as_codes(fn, helpers, depth=0):
     new = copy.deepcopy(fn)
     new.body = stmts(new.body)
     return ast.fix_missing_locations(new)
+
+
+# ------------------------------------------------------------------------------------------------
+# SCOPE GUARD for the name layer.  The names are consumers of the index conventions, not part of the property: a source
+# that spells / orders / numbers the names differently is NOT a violation.  Each name-layer item is therefore executed
+# (the rewritten integer function, in a scratch namespace) on a grid of valid orders and compared with the scheme of the
+# hand model; when it follows another scheme the item is `untranslatable` (reason recorded, generated text = hand model,
+# TIE-DEGRADED) and only what follows from the property — no two orders on one name / dict key, the +-m pairing — is
+# judged, by execution.
+# ------------------------------------------------------------------------------------------------
+def _model_name_key(n, m):
+    if n == 0:
+        return (0, 0, 0, 4)
+    if n == 1:
+        return (1, 0, 1, 0 if m >= 0 else 1)
+    if m == 0:
+        return (2, 0, 0, 4) if n == 2 else (3, n // 2 - 1, 0, 4)
+    acc = (n - 1) // 2 if m % 2 == 1 else (n - abs(m)) // 2 + 1
+    return (4, acc, abs(m), (0 if m % 2 == 1 else 2) + (0 if m >= 0 else 1))
+
+
+def _exec_defs(nodes, ns):
+    import copy
+    mod = ast.Module(body=[copy.deepcopy(n) for n in nodes], type_ignores=[])
+    ast.fix_missing_locations(mod)
+    exec(compile(mod, '<gen_c11 scope guard>', 'exec'), ns)
+    return ns
+
+
+def _scratch_ns(mo):
+    import numpy
+    ns = {'np': numpy, 'truenp': numpy, 'numpy': numpy}
+    try:
+        _exec_defs([get_def(mo, 'sign'), get_def(mo, 'is_odd')], ns)
+    except Exception as ex:     # noqa
+        raise Untranslatable(f'mathops.sign / is_odd cannot be executed: {ex}')
+    return ns
+
+
+def _grid():
+    return [(n, m) for n in range(0, 41) for m in range(-n, n + 1, 2)]
+
+
+def _same_scheme(what, f, want, pts):
+    for pt in pts:
+        try:
+            got = f(*pt)
+            got = tuple(int(x) for x in got) if isinstance(got, tuple) else int(got)
+        except Exception as ex:   # noqa
+            raise Untranslatable(f'{what}: cannot be evaluated at {pt} ({type(ex).__name__}: {ex}); consumer layer, judged by execution only')
+        if got != want(*pt):
+            raise Untranslatable(f'{what} follows another scheme than the hand model (at {pt}: {got}, model {want(*pt)}); '
+                                 'names are not part of the property: tie only, judged by execution (no two orders on one name)')
 
 
 def generate(repo):
@@ -888,8 +955,14 @@ def generate(repo):
            whole(xy, 'xy_j_to_mn', 'xyJToMn', fuel='j_.toNat'),
            f'def xyJToMn (j_ : Int) : Option (Int × Int) := if j_ < 1 then none else some ({M}.xyJToMn j_)')
     # ---------------------------------------------------------------- session 3: names and pairing of the +-m terms
+    def build_accessor():
+        text = whole(zk, '_name_accessor', 'nameAccessor')()
+        ns = _exec_defs([get_def(zk, '_name_accessor')], _scratch_ns(mo))
+        _same_scheme('_name_accessor', ns['_name_accessor'], lambda n, m: _model_name_key(n, m)[1],
+                     [(n, m) for n, m in _grid() if m != 0 and n >= 2])
+        return text
     g.item('name_accessor', 'prysm/polynomials/zernike.py:_name_accessor', lambda: get_def(zk, '_name_accessor'),
-           whole(zk, '_name_accessor', 'nameAccessor'),
+           build_accessor,
            f'def nameAccessor (n_ m_ : Int) : Option Int := some ({M}.nameAccessor n_ m_)')
 
     def find_sph():
@@ -911,6 +984,10 @@ def generate(repo):
         term, ty = te.expr(find_sph().value)
         if ty != 'int' or te.binds:
             raise Untranslatable('spherical ordinal is not an integer expression')
+        ns = _scratch_ns(mo)
+        code = compile(ast.Expression(body=find_sph().value), '<gen_c11 scope guard>', 'eval')
+        _same_scheme('spherical ordinal of nm_to_name', lambda n: eval(code, ns, {params[0]: n, **{q: 0 for q in params[1:]}}),
+                     lambda n: n // 2 - 1, [(n,) for n in range(4, 82, 2)])
         return f'def sphericalAccessor {" ".join(f"({q}_ : Int)" for q in params)} : Int :=\n  {term}\n'
     g.item('spherical_accessor', 'prysm/polynomials/zernike.py:nm_to_name', find_sph, build_sph,
            f'def sphericalAccessor (n_ m_ : Int) : Int := {M}.sphericalAccessor n_')
@@ -924,7 +1001,13 @@ def generate(repo):
         try:
             f2 = dict(funcs)
             f2['_name_accessor'] = ('nameAccessor', ['int', 'int'], 'int?')
-            return compile_fn(coded, 'nameKey', f2)
+            text = compile_fn(coded, 'nameKey', f2)
+            ns = _scratch_ns(mo)
+            if '_name_accessor' in helpers:
+                _exec_defs([helpers['_name_accessor']], ns)
+            _exec_defs([coded], ns)
+            _same_scheme('nm_to_name', ns[coded.name], _model_name_key, _grid())
+            return text
         finally:
             HELPERS.clear()
     g.item('nm_to_name', 'prysm/polynomials/zernike.py:nm_to_name, _name_helper',
@@ -1012,7 +1095,14 @@ def generate(repo):
                     if isinstance(o, ast.NotIn):
                         return '(!tilt_)'
             raise Untranslatable(f'condition {ast.unparse(e)}')
-        return f'def keepsWholeName (words_ : Int) (tilt_ : Bool) : Bool :=\n  {cond(iff.test)}\n'
+        text = f'def keepsWholeName (words_ : Int) (tilt_ : Bool) : Bool :=\n  {cond(iff.test)}\n'
+        code = compile(ast.Expression(body=iff.test), '<gen_c11 scope guard>', 'eval')
+        for kind, words in enumerate((1, 2, 1, 2, 3)):
+            got = bool(eval(code, {'len': len}, {'split': ['w'] * words, 'name': 'Tilt X' if kind == 1 else 'w w'}))
+            if got != (kind in (0, 2, 3)):
+                raise Untranslatable('zernikes_to_magnitude_angle builds its keys by another rule than the hand model; the key strings are '
+                                     'not part of the property: tie only, judged by execution (no class may be lost)')
+        return text
     g.item('magang_name_rule', 'prysm/polynomials/zernike.py:zernikes_to_magnitude_angle', find_strip, build_strip,
            'def keepsWholeName (words_ : Int) (tilt_ : Bool) : Bool := decide (words_ < 3) && !tilt_')
 
@@ -1039,6 +1129,9 @@ def generate(repo):
                     raise Untranslatable(f'{pyname}: entry {ast.unparse(k) if k else "**"}')
                 if any(ord(c) < 32 or c in '"\\' for c in v.value):
                     raise Untranslatable(f'{pyname}: string needs escaping')
+                if ' ' in v.value or not v.value:
+                    raise Untranslatable(f'{pyname}: the word {v.value!r} is empty or contains a blank (spelling of the names is not part of the '
+                                         'property: tie only)')
                 rows.append(f'({_ilit(k.value)}, "{v.value}")')
             return f'def {lean} : List (Int × String) :=\n  [' + ', '.join(rows) + ']\n'
         return find, build
